@@ -45,13 +45,46 @@ func (c *Ctx) equalGuards(u *FuncUnit) []equalGuard {
 	probe := c.e.probeKeys()
 	var out []equalGuard
 	for _, g := range guardsOf(info, c.m.cfgOf(u)) {
-		if !g.atom.val {
+		// recognised forms of "the two byte strings are equal":
+		//   bytes.Equal(a, b) / slices.Equal(a, b)          (true edge)
+		//   bytes.Compare(a, b) == 0                        (true edge; != 0 false edge)
+		//   string(a) == string(b)                          (true edge; != false edge)
+		var args []ast.Expr
+		atomExpr := ast.Unparen(g.atom.e)
+		if v := identVar(info, atomExpr); v != nil {
+			// if same := bytes.Equal(…); same { … }
+			if def := singleDef(info, u.Body, v); def != nil {
+				atomExpr = ast.Unparen(def)
+			}
+		}
+		switch x := atomExpr.(type) {
+		case *ast.CallExpr:
+			name := c.m.calleeName(x)
+			if g.atom.val && (name == "bytes.Equal" || name == "slices.Equal") && len(x.Args) == 2 {
+				args = x.Args
+			}
+		case *ast.BinaryExpr:
+			eq := (x.Op == token.EQL && g.atom.val) || (x.Op == token.NEQ && !g.atom.val)
+			if !eq {
+				break
+			}
+			if cc, ok := ast.Unparen(x.X).(*ast.CallExpr); ok && c.m.calleeName(cc) == "bytes.Compare" && len(cc.Args) == 2 {
+				if tv, has := info.Types[x.Y]; has && tv.Value != nil && tv.Value.ExactString() == "0" {
+					args = cc.Args
+				}
+			}
+			lc, ok1 := ast.Unparen(x.X).(*ast.CallExpr)
+			rc, ok2 := ast.Unparen(x.Y).(*ast.CallExpr)
+			if ok1 && ok2 && isConversion(info, lc) && isConversion(info, rc) && len(lc.Args) == 1 && len(rc.Args) == 1 {
+				if b, ok := info.TypeOf(lc).Underlying().(*types.Basic); ok && b.Info()&types.IsString != 0 {
+					args = []ast.Expr{lc.Args[0], rc.Args[0]}
+				}
+			}
+		}
+		if len(args) != 2 {
 			continue
 		}
-		call, ok := ast.Unparen(g.atom.e).(*ast.CallExpr)
-		if !ok || c.m.calleeName(call) != "bytes.Equal" || len(call.Args) != 2 {
-			continue
-		}
+		call := &ast.CallExpr{Args: args}
 		for _, perm := range [][2]int{{0, 1}, {1, 0}} {
 			st, pk := ast.Unparen(call.Args[perm[0]]), ast.Unparen(call.Args[perm[1]])
 			sc, ok := st.(*ast.CallExpr)
@@ -191,7 +224,7 @@ func ruleR02(c *Ctx) {
 			}
 		}
 	}
-	c.r.floor("R02", 6*6, "equality-dominated events", "C01")
+	c.r.floor("R02", 24, "equality-dominated events", "C01")
 }
 
 func isConstBool(info *types.Info, e ast.Expr, want bool) bool {
